@@ -239,7 +239,11 @@ def _exprs(tier):
     # a scalar subquery (with its own WHERE / lists / comparisons) as a call argument, over-clause operand or nested call argument
     subq_call = st.tuples(st.sampled_from(G.FUNCS), G.select(1), st.one_of(st.none(), G.expr(0))).map(
         lambda t: G.func_call(t[0], [W('paren', G.paren(t[1]), subquery=True)] + ([t[2]] if t[2] is not None else [])))
-    rich = G.weighted((3, G.expr(2)), (1, G.expr(1)), (1, st.tuples(G.expr(1), G.alias).map(lambda t: G.with_alias(*t))), (1, subq_call))
+    # a CASE expression as bare operand of an arithmetic / concatenation operator, on either side
+    case1 = st.tuples(st.lists(st.tuples(G.cond(0), G.expr(0)), min_size=1, max_size=2), st.one_of(st.none(), G.expr(0))).map(lambda t: G.case_expr(None, t[0], t[1]))
+    case_op = st.tuples(case1, st.sampled_from(G.BINOPS), G.expr(0), st.booleans()).map(
+        lambda t: W('binop', seq(t[0], G.opl(t[1]), G.tight_first(G._operand(t[2]))) if t[3] else seq(G._operand(t[2]), G.opl(t[1]), G.tight_first(t[0]))))
+    rich = G.weighted((3, G.expr(2)), (1, G.expr(1)), (1, st.tuples(G.expr(1), G.alias).map(lambda t: G.with_alias(*t))), (1, subq_call), (1, case_op))
 
     def mk(items, where, follower):
         lex = seq(L('kw', 'SELECT', False, lead='SELECT'), W('list', comma_list([W('item', i) for i in items]), ctx='select', n=len(items)),
